@@ -27,3 +27,17 @@ Theorem C05_read_line_makes_progress :
     (sdata s = [] -> l = [] /\ (e = RLEOH \/ e = RLRead)).
 Proof. exact read_line_shrinks. Qed.
 Print Assumptions C05_read_line_makes_progress.
+
+(** The two fuelled loops whose out-of-fuel branch returns an ordinary value (the search for the
+    start of a record, the header split of HTTP blocks) never reach that branch: the result with
+    the fuel the model uses (input length + 1) is the result with any larger fuel. *)
+Require Import Model.Record Proofs.FuelProofs.
+Theorem C05_record_start_search_does_not_depend_on_fuel :
+  forall p s off k, find_start (S (length (sdata s)) + k) p s off = find_start (S (length (sdata s))) p s off.
+Proof. exact find_start_enough_fuel. Qed.
+Print Assumptions C05_record_start_search_does_not_depend_on_fuel.
+
+Theorem C05_http_header_split_does_not_depend_on_fuel :
+  forall s k, http_header_fuel (S (length s) + k) s = http_header s.
+Proof. exact http_header_enough_fuel. Qed.
+Print Assumptions C05_http_header_split_does_not_depend_on_fuel.
